@@ -84,6 +84,8 @@ pub enum WKind {
     InvSigma,
     /// uniform 5e-4 (small absolute scale)
     Tiny,
+    /// uniform 2e3 (large absolute scale)
+    Huge,
     /// spread 1e-3 .. 1e3
     Spread,
     /// ramp with weight i == pos set to zero
@@ -105,6 +107,7 @@ impl WKind {
             WKind::Ramp => Some((0..n).map(ramp).collect()),
             WKind::InvSigma => Some((0..n).map(|i| 1.0 / [0.5, 1.0, 2.0][i % 3]).collect()),
             WKind::Tiny => Some(vec![5e-4; n]),
+            WKind::Huge => Some(vec![2e3; n]),
             WKind::Spread => Some((0..n).map(|i| 10f64.powf(-3.0 + 6.0 * (((i * 7) % n) as f64) / ((n.max(2) - 1) as f64))).collect()),
             WKind::ZeroAt(p) => Some((0..n).map(|i| if i == *p % n { 0.0 } else { ramp(i) }).collect()),
             WKind::NegAt(p) => Some((0..n).map(|i| if i == *p % n { -ramp(i) } else { ramp(i) }).collect()),
